@@ -36,6 +36,30 @@ TRUSTED_BASE = [
 
 
 # --------------------------------------------------------------------------- env
+# ---- the case in hand: a breadcrumb for the supervising process (harness/main.py).  The implementation runs inside the
+# harness process; if it never returns from one call (a decoder that does not terminate on some input holds the
+# interpreter lock: no signal handler, no thread of this process can report it), only another process can tell.  Before a
+# call that is given peer-controlled bytes the driver notes the input; the supervisor kills a child whose note has not
+# changed for STALL_S seconds and reports the noted input as the one on which the implementation does not come back.
+_CRUMB = os.environ.get('VERIF_CRUMB')
+STALL_S = int(os.environ.get('VERIF_STALL_S', '150'))
+
+
+def note_case(desc):
+    if not _CRUMB:
+        return
+    if desc is None:
+        try:
+            os.remove(_CRUMB)
+        except OSError:
+            pass
+        return
+    tmp = _CRUMB + '.tmp'
+    with open(tmp, 'w') as f:
+        json.dump(desc, f)
+    os.replace(tmp, _CRUMB)
+
+
 def setup_env():
     """Make sure the implementation under test is /repo's working tree (fail closed)."""
     os.environ['PYTHONDONTWRITEBYTECODE'] = '1'
